@@ -1,6 +1,9 @@
 import Urandom.Driver.Word
 import Urandom.Driver.Distr
 import Urandom.Driver.Block
+import Urandom.Driver.Serde
+import Urandom.Driver.Fill
+import Urandom.Driver.ReadMock
 open Urandom.Driver
 
 def answer (line : String) : String :=
@@ -22,6 +25,10 @@ def answer (line : String) : String :=
       | "bern" => bernRequest kv
       | "std" => stdRequest kv
       | "chacha" => chachaRequest kv
+      | "serde" => serdeRequest kv
+      | "fillb" => fillbRequest kv
+      | "read" => readRequest kv
+      | "mock" => mockRequest kv
       | "slpblock" => slpblockRequest kv
       | "specblock" => specblockRequest kv
       | _ => none
